@@ -74,6 +74,8 @@ fn apply(srv: &Srv, cfg: &SrvCfg, before: &Tree, a: &Action, depth: usize, aidx:
     if let Some(c) = session.as_mut() {
         c.reset_for_reuse();
     }
+    // "no transfer thread after a refusal" is judged by counting threads: start from a quiescent server
+    quiesce();
     let name = TARGETS[a.target];
     let opts = &optsets()[a.optset];
     let rel_send = &srv.send_dir[srv.root.len()..];
@@ -299,7 +301,7 @@ pub fn configs() -> Vec<SrvCfg> {
 }
 
 pub fn check(tier: Tier) -> Outcome {
-    let depth = if tier == Tier::Quick { 2 } else { 3 };
+    let depth = if tier == Tier::Quick { 2 } else { 4 };
     let mut cells = vec![];
     for s in configs() {
         for reuse in [false, true] {
